@@ -206,7 +206,16 @@ func (t *Task) Ev(kind, data string) {
 	t.pending = append(t.pending, pendingEv{kind, data})
 }
 
-func (t *Task) Evf(kind, format string, a ...any) { t.Ev(kind, fmt.Sprintf(format, a...)) }
+// Evf formats an event. In the race engine nothing is formatted: fmt uses
+// sync.Pool, whose race annotations would add happens-before edges between
+// tasks (and nondeterministically so, pools being per-P).
+func (t *Task) Evf(kind, format string, a ...any) {
+	if t.s.Mode == ModeFutex {
+		t.Ev(kind, "")
+		return
+	}
+	t.Ev(kind, fmt.Sprintf(format, a...))
+}
 
 //go:norace
 func (s *Sched) flush() {
